@@ -140,8 +140,19 @@ static void sc_set_clip32 (T *t)
     pixman_region32_t r2; if (!pixman_region32_init_rects (&r2, b2, 9)) V (t, "c15-harness-setup", "region");
     int ok2; WIN (ok2 = pixman_image_set_clip_region32 (d.img, &r2));
     st (t, "set_clip_region32(replace by 9 rects)", ok2, hf);
+    uint32_t *before2 = malloc (d.bytes); memcpy (before2, d.bits, d.bytes);
     pixman_image_composite32 (PIXMAN_OP_SRC, s.img, NULL, d.img, 2, 0, 0, 0, 0, 0, 28, 6);
     if (ok && ok2) expect_same (t, "drawn-through-clip32-2", d.bits, d.bytes, "picture drawn through the second clip");
+    if (ok && !ok2) {
+        /* the image HAD a clip and the replacement failed: whatever clip it is left with (the old one, the new one, none that lets anything
+         * through), a later drawing may only touch pixels that the old or the new clip permits */
+        for (int y = 0; y < 6; y++) for (int x = 0; x < 30; x++)
+            if (d.bits[y * (d.stride / 4) + x] != before2[y * (d.stride / 4) + x] && !pixman_region32_contains_point (&r, x, y, NULL) && !pixman_region32_contains_point (&r2, x, y, NULL)) {
+                V (t, "c15-drawing-escapes-clip-after-failed-set-clip", "set_clip_region32 failed on an image that had a clip; the next composite changed pixel (%d,%d), which neither the old nor the new clip permits", x, y);
+                y = 6; break;
+            }
+    }
+    free (before2);
     WIN (ok = pixman_image_set_clip_region32 (d.img, NULL));
     st (t, "set_clip_region32(NULL)", ok, hf);
     pixman_image_composite32 (PIXMAN_OP_SRC, s.img, NULL, d.img, 1, 1, 0, 0, 0, 0, 29, 5);
@@ -153,10 +164,20 @@ static void set_clip16_n (T *t, int n, const char *key)
     int hf, ok; surf_t s = surf_new (t, PIXMAN_a8r8g8b8, 64, 4, 9), d = surf_new (t, PIXMAN_a8r8g8b8, 64, 4, 10);
     pixman_box16_t b[24]; for (int i = 0; i < n; i++) { b[i].x1 = 3 * i; b[i].x2 = 3 * i + 2; b[i].y1 = i % 2; b[i].y2 = 3 + i % 2; }
     pixman_region16_t r; if (!pixman_region_init_rects (&r, b, n)) V (t, "c15-harness-setup", "region16");
+    /* the image already has a (one-rectangle, allocation-free) clip */
+    pixman_region16_t old; pixman_region_init_rect (&old, 60, 0, 4, 2);
+    if (!pixman_image_set_clip_region (d.img, &old)) V (t, "c15-harness-setup", "old clip");
     WIN (ok = pixman_image_set_clip_region (d.img, &r));
     st (t, key, ok, hf);
+    uint32_t *before = malloc (d.bytes); memcpy (before, d.bits, d.bytes);
     pixman_image_composite32 (PIXMAN_OP_SRC, s.img, NULL, d.img, 0, 0, 0, 0, 0, 0, 64, 4);
     if (ok) expect_same (t, "drawn-through-clip16", d.bits, d.bytes, "picture drawn through the clip");
+    else for (int y = 0; y < 4; y++) for (int x = 0; x < 64; x++)
+        if (d.bits[y * (d.stride / 4) + x] != before[y * (d.stride / 4) + x] && !pixman_region_contains_point (&r, x, y, NULL) && !pixman_region_contains_point (&old, x, y, NULL)) {
+            V (t, "c15-drawing-escapes-clip-after-failed-set-clip", "set_clip_region (16-bit) failed on an image that had a clip; the next composite changed pixel (%d,%d), which neither the old nor the new clip permits", x, y);
+            y = 4; break;
+        }
+    free (before); pixman_region_fini (&old);
     pixman_region_fini (&r); surf_free (&s); surf_free (&d);
 }
 static void sc_set_clip16_small (T *t) { set_clip16_n (t, 8, "set_clip_region(8 rects, stack boxes)"); }
